@@ -402,3 +402,13 @@ N('benign.keyword-dict-complete', [(P + 'tls/subprotocol.py', _SH_RET,
   "        params = {name: parser[name] for name in ('protocol_version', 'random', 'session_id', 'cipher_suite', 'compression_method')}\n"
   "        params['extensions'] = parser['extensions'] if extension_parser else TlsExtensionsServer([])\n"
   "        return TlsHandshakeServerHello(**params), handshake_header_parser.parsed_length")])
+# extension dispatch tables: a type with side specific bodies handed to the structure of the other side
+B('C06.dispatch-other-side', ['C06'], [(P + 'tls/extension.py',
+  "            (TlsExtensionType.SIGNED_CERTIFICATE_TIMESTAMP, [TlsExtensionSignedCertificateTimestampServer, ]),",
+  "            (TlsExtensionType.SIGNED_CERTIFICATE_TIMESTAMP, [TlsExtensionSignedCertificateTimestampClient, ]),")], mention=['C06.R8'])
+B('C06.dispatch-status-request-side', ['C06'], [(P + 'tls/extension.py',
+  "            (TlsExtensionType.STATUS_REQUEST, [TlsExtensionCertificateStatusRequestClient, ]),",
+  "            (TlsExtensionType.STATUS_REQUEST, [TlsExtensionCertificateStatusRequestServer, ]),")], mention=['C06.R8'])
+N('benign.dispatch-shared-entries', [(P + 'tls/extension.py',
+  "        return collections.OrderedDict([\n            (TlsExtensionType.APPLICATION_LAYER_PROTOCOL_NEGOTIATION,\n                [TlsExtensionApplicationLayerProtocolNegotiation, ]),\n            (TlsExtensionType.CHANNEL_ID, [TlsExtensionChannelId, ]),\n            (TlsExtensionType.EC_POINT_FORMATS, [TlsExtensionECPointFormats, ]),",
+  "        return collections.OrderedDict([\n            (TlsExtensionType.APPLICATION_LAYER_PROTOCOL_NEGOTIATION,\n                [TlsExtensionApplicationLayerProtocolNegotiation, ]),\n        ] + [\n            (TlsExtensionType.CHANNEL_ID, [TlsExtensionChannelId, ]),\n            (TlsExtensionType.EC_POINT_FORMATS, [TlsExtensionECPointFormats, ]),")])
